@@ -55,6 +55,7 @@ pub fn canon(path: &str, at: &str) -> String {
         if let Some(p) = path.find(start) { return annotation(&path[p + start.len()..], at); }
     }
     if let Some(p) = path.find(".annotation_default") { return value(&path[p + ".annotation_default".len()..], at); }
+    if path.contains(".code.frames[]") && path.ends_with(".Object") { return ".methods[].code.frames[]@verification_type.Object".into(); }
     if let Some(p) = path.rfind(".Dynamic") { return format!("@condy{}", &path[p + ".Dynamic".len()..]); }
     path.to_string()
 }
